@@ -3,6 +3,7 @@ package main
 import (
 	"bytes"
 	"fmt"
+	"regexp"
 	"strings"
 	"time"
 
@@ -448,7 +449,8 @@ func finalizeShape(out CallOutcome, err error) string {
 		return "panic"
 	}
 	if err != nil {
-		s := err.Error()
+		// instance-specific hex (addresses, hashes) is not part of the shape
+		s := hexRun.ReplaceAllString(err.Error(), "#")
 		if len(s) > 60 {
 			s = s[:60]
 		}
@@ -465,3 +467,4 @@ func (w *World) countEngineFaults(n *Node) {
 }
 
 var _ = bytes.Equal
+var hexRun = regexp.MustCompile(`[0-9a-fA-F]{8,}`)
